@@ -46,12 +46,12 @@ def protocol_models(ck):
 
 def scenarios(tier):
     if tier == "quick":
-        return [("counters", 8, 150000), ("counters", 2, 300000), ("terminate", 3, 0), ("terminate", 6, 0), ("periodic", 3, 0),
+        return [("counters", 8, 150000), ("counters", 2, 300000), ("terminate", 3, 0), ("terminate", 6, 0), ("periodic", 3, 0), ("periodic-terminate", 6, 0),
                 ("gnat", 4, 400), ("solutions", 4, 200), ("rng", 6, 60), ("spaces", 6, 60)]
     out = []
     for t in (2, 4, 8, 16):
         out += [("counters", t, 400000), ("terminate", t, 0), ("gnat", t, 1500), ("solutions", t, 600), ("rng", t, 200), ("spaces", t, 200)]
-    out += [("periodic", 3, 0), ("periodic", 8, 0)] * 3
+    out += [("periodic", 3, 0), ("periodic", 8, 0), ("periodic-terminate", 20, 0)] * 3
     return out * 2
 
 
